@@ -25,7 +25,7 @@ package tls
 // (*Conn).sendAlert havocs the heap (trusted contract in verif_contracts_cert.go has no frame), so the frame of
 // the accepting path is stated explicitly in `kept`.
 //@ func (*clientHandshakeStateTLS13).checkServerHelloOrHRR
-//@   property C12 C17
+//@   property C12 C17 C33
 //@   let sh = hs.serverHello
 //@   let ch = hs.hello
 //@   let c = hs.c
@@ -59,7 +59,7 @@ package tls
 // not a second HelloRetryRequest), and a selected PSK identity is an index into the offered identities
 // (selected_identity == len(identities) is out of range and must be rejected).
 //@ func (*clientHandshakeStateTLS13).processServerHello
-//@   property C12
+//@   property C12 C33
 //@   let sh = hs.serverHello
 //@   let ch = hs.hello
 //@   requires suites13OK()
@@ -75,7 +75,7 @@ package tls
 // (c.clientProtocol). (*Conn).readHandshake (upstream record layer, not under contract) is assumed not to touch the
 // handshake state object and the ClientHello (`hskept`, frame-only assumption).
 //@ func (*clientHandshakeStateTLS13).readServerParameters
-//@   property C12
+//@   property C12 C33
 //@   let c = hs.c
 //@   let ch = hs.hello
 //@   let offered = hs.hello.alpnProtocols
@@ -103,7 +103,7 @@ package tls
 // pickCipherSuite's contract (verif_contracts_hs.go) has no frame because it calls sendAlert; `picked_frame` assumes
 // that its accepting path writes nothing but hs.suite and c.cipherSuite (it consists of exactly these two stores).
 //@ func (*clientHandshakeState).processServerHello
-//@   property C12
+//@   property C12 C33
 //@   let c = hs.c
 //@   let ch = hs.hello
 //@   let sh = hs.serverHello
@@ -162,7 +162,7 @@ package tls
 // Frames of uncontracted callees with a whole-heap effect are stated as "assert before / assume after" pairs of the
 // same formula (prng_*, marshal_*, read_*): the callee is assumed not to touch the handshake state named there.
 //@ func (*clientHandshakeStateTLS13).processHelloRetryRequest
-//@   property C17 C12
+//@   property C17 C12 C33
 //@   let c = hs.c
 //@   let ch = hs.hello
 //@   let sh = hs.serverHello
@@ -245,7 +245,7 @@ package tls
 // getSharedKey (uTLS helper): ECDH of `key` with the peer's share. It can only succeed when the peer's share has the
 // encoding length of the key's own curve (crypto/ecdh is symbolic: /verif/contracts/trusted/hs13.vc, preset.vc).
 //@ func getSharedKey
-//@   property C18
+//@   property C18 C33
 //@   requires key != nil
 //@   modifies nothing
 //@   ensures err: ret1 != nil ==> isnil(ret0)
@@ -282,7 +282,7 @@ package tls
 // History: before fix 99e3805 only the first classical key was kept and used, so with key shares [X25519, P-256]
 // (HelloFirefox_65 ... _120) a server selecting P-256 made the handshake abort with "tls: invalid server key share".
 //@ func (*clientHandshakeStateTLS13).establishHandshakeKeys
-//@   property C18
+//@   property C18 C33
 //@   let c = hs.c
 //@   let sh = hs.serverHello
 //@   let grp = hs.serverHello.serverShare.group
